@@ -275,8 +275,14 @@ func NewAPI(p *Pkg) (*API, error) {
 		if fv.Kind() != reflect.Func || fv.Type().NumOut() != 1 {
 			continue
 		}
+		if !strings.HasPrefix(n, "New") {
+			continue
+		}
 		for _, op := range a.Ops {
-			if fv.Type().Out(0) == op.RespType {
+			// a constructor returns the operation's response interface, or (shared component responses) a
+			// concrete type that implements it
+			ot := fv.Type().Out(0)
+			if ot == op.RespType || (ot.Kind() != reflect.Interface && ot.Implements(op.RespType)) {
 				op.Ctors = append(op.Ctors, Ctor{n, fv})
 			}
 		}
